@@ -38,7 +38,22 @@ func (c11) Plan(tier string) []core.Segment {
 		{Gen: "small", Profile: a, Count: gen.Size("small", a), Exhaustive: true, Desc: "all strings up to the bound over {*,_,a,SP,.}", Batch: 100000},
 		{Gen: "small", Profile: b, Count: gen.Size("small", b), Exhaustive: true, Desc: "all strings up to the bound over {*,_,a,SP,.,left double quote,NBSP,e-acute}", Batch: 100000},
 		{Gen: "c11long", Count: scale(tier, 3_000_000, 50_000_000), Desc: "random strings of 11-60 symbols biased to long same-character runs and run lengths summing to multiples of 3"},
+		{Gen: "c11runes", Profile: runesProfile(tier), Count: c11RuneCount(runesProfile(tier)), Exhaustive: true, Desc: "every code point (quick: Basic Multilingual Plane; thorough: all planes) as the neighbour of a delimiter run: r*a*, *a*r, *r*, a*r*a with * and _", Batch: 100000},
 	}
+}
+
+func runesProfile(tier string) string {
+	if tier == "thorough" {
+		return "all"
+	}
+	return "bmp"
+}
+
+func c11RuneCount(profile string) uint64 {
+	if profile == "all" {
+		return 8 * 0x110000
+	}
+	return 8 * 0x10000
 }
 
 func (c11) Directed() []core.Directed {
@@ -70,6 +85,33 @@ func init() {
 			}
 		}
 		return []byte(sb.String()), "c11long"
+	})
+}
+
+func init() {
+	gen.Register("c11runes", func(r *core.Rand, index uint64, profile string) ([]byte, string) {
+		c := rune(index / 8)
+		if c == 0 || c >= 0xD800 && c <= 0xDFFF || c > 0x10FFFF || c == '\n' || c == '\r' || c == '\t' || c == '\\' {
+			// not in the property's alphabet: line endings, the tab (trimmed at paragraph edges), the escape character
+
+			c = 'a'
+		}
+		d := "*"
+		if index&4 != 0 {
+			d = "_"
+		}
+		var s string
+		switch index & 3 {
+		case 0:
+			s = string(c) + d + "a" + d
+		case 1:
+			s = d + "a" + d + string(c)
+		case 2:
+			s = d + string(c) + d
+		default:
+			s = "a" + d + string(c) + d + "a"
+		}
+		return []byte(s), "c11runes"
 	})
 }
 
